@@ -1298,7 +1298,7 @@ class Interp(Ops, Builtins, DynOps):
         if which == 0:
             idx = self.ctx.fresh(ivar, I)
             self.ctx.assume(z3.And(0 <= idx, idx < n))
-            fr.vars[ivar + "#ghost"] = VInt(idx)
+            fr.vars[ivar] = VInt(idx)        # ghost: the loop index is readable by the specs of nested loops
             assume_inv(idx)
             if not self.ctx.feasible([]):
                 raise PathEnd()
@@ -1314,6 +1314,7 @@ class Interp(Ops, Builtins, DynOps):
             raise PathEnd()
         else:
             assume_inv(n)
+            fr.vars[ivar] = VInt(n)
             if not self.ctx.feasible([]):
                 raise PathEnd()
             self.exec_block(s.orelse, fr)
